@@ -217,6 +217,8 @@ def run(out, tier, prop):
         out.extra["tlaps_obligations_proved"] = n
         for k in (2, 3):
             behs.append({"src": "racedrop", "mode": "racedrop", "rounds": 60000 if quick else 1000000, "threads": k, "steps": []})
+        # storage reuse after user code panicked while holding a span's extensions
+        behs.append({"src": "poison", "mode": "poison", "rounds": 20 if quick else 200, "reuse": 3, "steps": []})
     lines, found = execute(behs, prop.lower())
     judge(out, behs, lines, found, prop)
 
